@@ -91,7 +91,11 @@ func evalCase(cs *Case) (v verdict) {
 			v = schemaLeg(d, cs)
 		}
 	}); p {
-		return verdict{key: fmt.Sprintf("C15|%s|%s", cs.Dialect, rt.PanicKey(st)), what: fmt.Sprintf("panic: %v", val), detail: map[string]any{"stack": st}}
+		key := fmt.Sprintf("C15|%s|%s", cs.Dialect, rt.PanicKey(st))
+		if nonFiniteDefault(cs) && strings.Contains(st, "ColumnDefault") {
+			key = fmt.Sprintf("C15|%s|default-number|non-finite", cs.Dialect)
+		}
+		return verdict{key: key, digest: rt.Digest(cs.Dialect, "panic", cs.Label, fmt.Sprint(val)), what: fmt.Sprintf("panic: %v", val), detail: map[string]any{"stack": st}}
 	}
 	return v
 }
@@ -391,6 +395,18 @@ func schemaLeg(d *dialect, cs *Case) verdict {
 	}
 	v := schemaLeg1(d, cs)
 	if v.key != "" {
+		// root-cause classes of specutil.ColumnDefault's number handling (strconv int64/uint64/float64).
+		switch {
+		case strings.Contains(v.key, "default-literal:strconv.ParseUint"):
+			v.key = fmt.Sprintf("C15|%s|default-number|integer-beyond-64-bit", d.name)
+			v.more = nil
+		case nonFiniteDefault(cs) && (strings.Contains(v.key, "|panic|") || strings.Contains(v.key, "|eval-error|")):
+			v.key = fmt.Sprintf("C15|%s|default-number|non-finite", d.name)
+			v.what = "a default literal NaN/Infinity (accepted as a number by sqlx.IsLiteralNumber) on a non-text column: " + v.what
+			v.more = nil
+		}
+	}
+	if v.key != "" {
 		// root-cause class: an HCL template sequence in a string that MarshalHCL writes with strconv.Quote.
 		if el := templateElement(cs); el != "" && (strings.Contains(v.key, "|eval-error|") || strings.Contains(v.key, ".type|") || strings.Contains(v.key, "|desc|table.index")) {
 			v.what = "HCL template sequence (${ or %{) in " + el + " is written unescaped: " + v.what
@@ -399,6 +415,25 @@ func schemaLeg(d *dialect, cs *Case) verdict {
 		}
 	}
 	return v
+}
+
+// nonFiniteDefault: some column of the case has a literal default spelled like a non-finite float.
+func nonFiniteDefault(cs *Case) bool {
+	if cs.Schema == nil {
+		return false
+	}
+	for _, t := range cs.Schema.Tables {
+		for _, c := range t.Cols {
+			if c.Def == nil || c.Def.Raw {
+				continue
+			}
+			switch strings.ToLower(strings.TrimLeft(c.Def.V, "+-")) {
+			case "nan", "inf", "infinity":
+				return true
+			}
+		}
+	}
+	return false
 }
 
 // templateElement names the element of the case that carries "${" or "%{" in a place Atlas prints with
@@ -714,6 +749,9 @@ func descClass(path, a, b string) string {
 				base = base[:i]
 			}
 		}
+		if strings.Contains(firstWord(a), "ArrayType") && a != b && strings.EqualFold(a, b) {
+			return pc + "|ArrayType:element-name-case"
+		}
 		k := pc + "|" + shortType(firstWord(a)) + ":" + strings.TrimSpace(base)
 		if firstWord(a) != firstWord(b) {
 			k += "->" + shortType(firstWord(b))
@@ -721,6 +759,11 @@ func descClass(path, a, b string) string {
 		return k
 	case strings.HasSuffix(pc, ".default"):
 		if numericLoss(a, b) {
+			// a literal of at most 17 significant digits survives float64 (the marshal side); if it is
+			// nevertheless cut, the loss happens when the HCL number is read back (specutil.Default).
+			if n := sigDigits(a); n > 10 && n <= 17 {
+				return pc + "|float-default-truncated-to-10-digits"
+			}
 			return pc + "|numeric-precision-loss"
 		}
 		return pc + "|" + exprClass(a) + "->" + exprClass(b)
@@ -728,6 +771,24 @@ func descClass(path, a, b string) string {
 		return pc + "|" + attrDelta(a, b)
 	}
 	return pc
+}
+
+// sigDigits counts the significant decimal digits of a rendered numeric literal default.
+func sigDigits(s string) int {
+	u, err := strconv.Unquote(strings.TrimPrefix(s, "literal "))
+	if err != nil {
+		return 0
+	}
+	if i := strings.IndexAny(u, "eE"); i >= 0 {
+		u = u[:i]
+	}
+	d := strings.TrimLeft(strings.Map(func(r rune) rune {
+		if r >= '0' && r <= '9' {
+			return r
+		}
+		return -1
+	}, u), "0")
+	return len(strings.TrimRight(d, "0"))
 }
 
 // numericLoss: both rendered defaults are numeric literals of different value.
@@ -812,7 +873,7 @@ func attrDelta(a, b string) string {
 // bytesClass names the attribute on the first differing line of two HCL documents.
 func bytesClass(a, b string, err error) string {
 	if err != nil {
-		return "remarshal-error"
+		return "remarshal-error:" + errClass(err)
 	}
 	la, lb := strings.Split(a, "\n"), strings.Split(b, "\n")
 	for i := 0; i < len(la) || i < len(lb); i++ {
